@@ -8,6 +8,7 @@ import (
 	"bytes"
 
 	"cuelabs.dev/go/oci/ociregistry"
+	ocispec "github.com/opencontainers/image-spec/specs-go/v1"
 )
 
 type c14snapshot struct {
@@ -107,4 +108,53 @@ func VerifC14_ImmutableTags() {
 
 func init() {
 	verifRegister("VerifC14_ImmutableTags", VerifC14_ImmutableTags)
+}
+
+// VerifC14_NestedReferences: a tagged index (t1 -> IDX -> D1 -> {config a, layer b}) in
+// immutable-tags mode, where the index's child descriptor states D1's media type
+// honestly or not, optionally followed by a re-push of D1's bytes under another media
+// type, then any delete: everything reachable from the tag stays retrievable.
+func VerifC14_NestedReferences() {
+	u := newC02universe()
+	reg := NewWithConfig(&Config{ImmutableTags: true})
+	for bi := range u.blobs {
+		_, err := reg.PushBlob(vctx, "r1", ociregistry.Descriptor{MediaType: "application/octet-stream", Digest: u.bdig[bi], Size: int64(len(u.blobs[bi]))}, bytes.NewReader(u.blobs[bi]))
+		verifAssert(err == nil, "setup")
+	}
+	d1 := u.docs[1]
+	_, err := reg.PushManifest(vctx, "r1", "", d1.data, d1.mediaType)
+	verifAssert(err == nil, "setup")
+	types := []string{ocispec.MediaTypeImageManifest, ocispec.MediaTypeImageIndex, c02opaque}
+	childType := verifChoose("childType", 3) // 0 = the type D1 is stored under
+	child := ociregistry.Descriptor{MediaType: types[childType], Digest: d1.dig, Size: int64(len(d1.data))}
+	idx := c02marshal(ocispec.Index{MediaType: ocispec.MediaTypeImageIndex, Manifests: []ocispec.Descriptor{child}})
+	idesc, err := reg.PushManifest(vctx, "r1", "t1", idx, ocispec.MediaTypeImageIndex)
+	verifAssert(err == nil, "setup-index")
+	// optional re-push of D1's bytes under another media type (untagged)
+	if rp := verifChoose("repushAs", 4); rp > 0 {
+		reg.PushManifest(vctx, "r1", "", d1.data, types[rp-1])
+	}
+	switch verifChoose("delete", 4) {
+	case 0:
+		reg.DeleteBlob(vctx, "r1", u.bdig[0])
+	case 1:
+		reg.DeleteBlob(vctx, "r1", u.bdig[1])
+	case 2:
+		reg.DeleteManifest(vctx, "r1", d1.dig)
+	default:
+		reg.DeleteManifest(vctx, "r1", idesc.Digest)
+	}
+	got, err := reg.ResolveTag(vctx, "r1", "t1")
+	verifAssert(err == nil && got.Digest == idesc.Digest, "tag-binding-kept-forever")
+	_, e0 := reg.ResolveManifest(vctx, "r1", idesc.Digest)
+	_, e1 := reg.ResolveManifest(vctx, "r1", d1.dig)
+	verifAssert(e0 == nil && e1 == nil, "manifests-referenced-from-a-tag-stay-retrievable")
+	_, e2 := reg.ResolveBlob(vctx, "r1", u.bdig[0])
+	_, e3 := reg.ResolveBlob(vctx, "r1", u.bdig[1])
+	verifAssert(e2 == nil && e3 == nil, "blobs-referenced-through-a-tagged-index-stay-retrievable")
+	verifCover("end")
+}
+
+func init() {
+	verifRegister("VerifC14_NestedReferences", VerifC14_NestedReferences)
 }
